@@ -700,6 +700,9 @@ func (gen *Generator) GenerateCallBySymbol(sym *SexpSymbol, args []Sexp, orig Se
 		if err != nil {
 			return err
 		}
+		if selfContaining(expr) {
+			return fmt.Errorf("macro '%s' expanded to an expression that cannot be compiled: %v", sym.name, errSelfContaining)
+		}
 		return gen.Generate(expr)
 	}
 
